@@ -345,12 +345,22 @@ func c03(c *core.Ctx) {
 				continue
 			}
 			a := ci.Common().Args
-			if len(a) != 2 || !core.Derived(advStore.Val)[a[1]] {
+			// the pruning code inlined into the committing function: its Walk(old root; excluded = new root) is the pruning step
+			if o := core.CalleeObj(ci); o != nil && o.Name() == "Walk" && len(a) == 3 {
+				a = []ssa.Value{a[0], a[2]}
+			}
+			if len(a) != 2 || !(core.Derived(advStore.Val)[a[1]] || a[1] == advStore.Val) {
 				continue
 			}
 			pr++
 			ok := false
-			if ld, isLd := a[0].(*ssa.UnOp); isLd && core.FieldOf(ld.X) == lastConfirm && core.Dominates(ld, advStore) {
+			old := a[0]
+			for v := range core.SliceShallow(a[0]) {
+				if ld, isLd := v.(*ssa.UnOp); isLd && core.FieldOf(ld.X) == lastConfirm {
+					old = ld
+				}
+			}
+			if ld, isLd := old.(*ssa.UnOp); isLd && core.FieldOf(ld.X) == lastConfirm && core.Dominates(ld, advStore) {
 				_, hl := core.LoopOf(ld.Block())
 				_, hs := core.LoopOf(advStore.Block())
 				ok = hl == hs
